@@ -11,6 +11,7 @@ import EtVerif.Props.C04
 import EtVerif.Props.C08
 import EtVerif.Props.C10
 import EtVerif.Props.C11
+import Mathlib.Algebra.Order.BigOperators.Group.Finset
 
 namespace EtVerif.OapiL
 open EtVerif EtVerif.Oapi Scalar
@@ -112,5 +113,752 @@ theorem prepare_eq (k : Consts K) (s : Store K) (r : ComputeReq K) :
           cases h3 : loadVector tref with
           | none => rfl
           | some t0 => rfl
+
+/-! ### alignment only ever grows -/
+
+theorem vec_setDim_of_le (v : Vec K) {d : Nat} (h : v.dim ≤ d) : v.setDim d = ⟨d, v.entries⟩ := by
+  unfold Vec.setDim
+  rw [if_neg (by omega)]
+
+/-- growing a well-formed square-or-smaller matrix to `d × d` keeps every row -/
+theorem setDim_grow {M : CSM K} (hw : WFM M) (hc : HiddenClean M) {d : Nat}
+    (h1 : M.major ≤ d) (h2 : M.minor ≤ d) :
+    WFM (M.setDim d d) ∧ HiddenClean (M.setDim d d) ∧ (M.setDim d d).major = d ∧
+      (M.setDim d d).minor = d ∧ ∀ i, (M.setDim d d).rows.getD i [] = M.rows.getD i [] := by
+  obtain ⟨a, b, c, e, _⟩ := C10.setDim_wf M hw hc d d
+  refine ⟨a, b, c, e, fun i => ?_⟩
+  unfold CSM.setDim
+  rw [Mx.setMinorDim_getD_of_le _ (by rw [Mx.setMajorDim_minor]; exact h2),
+    Mx.setMajorDim_getD_of_le hw.1 hc h1]
+
+/-- what the alignment steps maintain: `c` is `c0` grown to `n × n`, `p` is `pes` at dim `n` -/
+structure Aligned (c0 : CSM K) (pes : List (Entry K)) (n : Nat) (c : CSM K) (p : Vec K) :
+    Prop where
+  wfm : WFM c
+  clean : HiddenClean c
+  major : c.major = n
+  minor : c.minor = n
+  rows : ∀ i, c.rows.getD i [] = c0.rows.getD i []
+  p_eq : p = ⟨n, pes⟩
+
+/-- entries / dimension of an optional loaded vector -/
+def optEntries (o : Option (Vec K)) : List (Entry K) := (o.map (·.entries)).getD []
+def optDim (o : Option (Vec K)) : Nat := (o.map (·.dim)).getD 0
+
+theorem alignPre_spec {c0 : CSM K} (hw : WFM c0) (hc : HiddenClean c0) (hsq : c0.major = c0.minor)
+    (pOpt : Option (Vec K)) :
+    Aligned c0 (optEntries pOpt) (max c0.major (optDim pOpt)) (alignPre c0 pOpt).1
+      (alignPre c0 pOpt).2.1 ∧ (alignPre c0 pOpt).2.2 = max c0.major (optDim pOpt) := by
+  cases pOpt with
+  | none =>
+    have hn : max c0.major (optDim (none : Option (Vec K))) = c0.major := by simp [optDim]
+    rw [hn]
+    exact ⟨⟨hw, hc, rfl, hsq.symm, fun _ => rfl, rfl⟩, rfl⟩
+  | some p =>
+    simp only [alignPre, optEntries, optDim, Option.map_some, Option.getD_some]
+    by_cases h1 : p.dim < c0.major
+    · rw [if_pos h1]
+      have hn : max c0.major p.dim = c0.major := by omega
+      rw [hn]
+      exact ⟨⟨hw, hc, rfl, hsq.symm, fun _ => rfl, vec_setDim_of_le p (by omega)⟩, rfl⟩
+    · rw [if_neg h1]
+      by_cases h2 : c0.major < p.dim
+      · rw [if_pos h2]
+        have hn : max c0.major p.dim = p.dim := by omega
+        rw [hn]
+        obtain ⟨a, b, c, d, e⟩ := setDim_grow hw hc (d := p.dim) (by omega) (by omega)
+        exact ⟨⟨a, b, c, d, e, rfl⟩, rfl⟩
+      · rw [if_neg h2]
+        have hn : max c0.major p.dim = c0.major := by omega
+        have hp : p.dim = c0.major := by omega
+        rw [hn]
+        exact ⟨⟨hw, hc, rfl, hsq.symm, fun _ => rfl, by rw [← hp]⟩, rfl⟩
+
+theorem alignInit_spec {c0 : CSM K} {pes : List (Entry K)} {n1 : Nat}
+    {x : CSM K × Vec K × Nat} (hx : Aligned c0 pes n1 x.1 x.2.1) (hn : x.2.2 = n1)
+    (tOpt : Option (Vec K)) :
+    Aligned c0 pes (max n1 (optDim tOpt)) (alignInit x tOpt).1 (alignInit x tOpt).2.1 ∧
+      (alignInit x tOpt).2.2.2 = max n1 (optDim tOpt) ∧
+      (alignInit x tOpt).2.2.1 = tOpt.map fun t => ⟨max n1 (optDim tOpt), t.entries⟩ := by
+  obtain ⟨c, p, n⟩ := x
+  simp only at hx hn
+  subst hn
+  cases tOpt with
+  | none =>
+    have hn : max n (optDim (none : Option (Vec K))) = n := by simp [optDim]
+    rw [hn]
+    exact ⟨hx, rfl, rfl⟩
+  | some t =>
+    simp only [alignInit, optDim, Option.map_some, Option.getD_some]
+    by_cases h1 : t.dim < n
+    · rw [if_pos h1]
+      have hn : max n t.dim = n := by omega
+      rw [hn]
+      exact ⟨hx, rfl, by rw [vec_setDim_of_le t (by omega)]⟩
+    · rw [if_neg h1]
+      by_cases h2 : n < t.dim
+      · rw [if_pos h2]
+        have hn : max n t.dim = t.dim := by omega
+        rw [hn]
+        obtain ⟨a, b, c', d, e⟩ := setDim_grow hx.wfm hx.clean (d := t.dim)
+          (by rw [hx.major]; omega) (by rw [hx.minor]; omega)
+        refine ⟨⟨a, b, c', d, fun i => (e i).trans (hx.rows i), ?_⟩, rfl, rfl⟩
+        simp only
+        rw [hx.p_eq]
+        exact vec_setDim_of_le _ (by simp only; omega)
+      · rw [if_neg h2]
+        have hn : max n t.dim = n := by omega
+        have ht : t.dim = n := by omega
+        rw [hn]
+        exact ⟨hx, rfl, by rw [← ht]⟩
+
+/-! ### row-level denotations -/
+
+section rows
+variable [IsStrictOrderedRing K]
+
+theorem den_splitRow_fst {r : Row K} (hs : Sorted r) (j : Nat) :
+    denE (splitRow r).1 j = max (denE r j) 0 := by
+  have hs1 : Sorted (splitRow r).1 := Distrust.sorted_sublist (Distrust.splitRow_fst_sublist r) hs
+  by_cases h : ∃ e ∈ r, e.idx = j
+  · obtain ⟨e, he, rfl⟩ := h
+    rw [Mg.denE_of_mem hs he]
+    by_cases hv : 0 ≤ e.val
+    · have : e ∈ (splitRow r).1 := by
+        rw [Distrust.splitRow_fst, List.mem_filter]; exact ⟨he, by simpa using hv⟩
+      rw [Mg.denE_of_mem hs1 this, max_eq_left hv]
+    · rw [max_eq_right (le_of_lt (not_le.mp hv))]
+      apply Mg.denE_of_not_mem
+      rintro ⟨x, hx, hxe⟩
+      rw [Distrust.splitRow_fst, List.mem_filter] at hx
+      have := Distrust.sorted_eq_of_idx_eq hs hx.1 he hxe
+      subst this
+      exact hv (by simpa using hx.2)
+  · rw [Mg.denE_of_not_mem h, max_self]
+    apply Mg.denE_of_not_mem
+    rintro ⟨x, hx, hxe⟩
+    exact h ⟨x, (Distrust.splitRow_fst_sublist r).subset hx, hxe⟩
+
+theorem den_splitRow_snd {r : Row K} (hs : Sorted r) (j : Nat) :
+    denE (splitRow r).2 j = max (-(denE r j)) 0 := by
+  have h := Distrust.den_splitRow r j
+  rw [den_splitRow_fst hs] at h
+  have : denE (splitRow r).2 j = max (denE r j) 0 - denE r j := by linarith
+  rw [this]
+  rcases le_total 0 (denE r j) with hv | hv
+  · rw [max_eq_left hv, max_eq_right (by linarith)]; ring
+  · rw [max_eq_right hv, max_eq_left (by linarith)]; ring
+
+end rows
+
+theorem den_canonRow_some (p : Vec K) (r : Row K) (j : Nat) :
+    denE (canonRow (some p) r) j =
+      if Canon.vsum r = 0 then denE p.entries j else denE r j / Canon.vsum r := by
+  unfold canonRow
+  rw [Canon.canonicalize_eq]
+  by_cases h : Canon.vsum r = 0
+  · rw [if_pos h, if_pos h]
+  · rw [if_neg h, if_neg h]; exact Canon.denE_map_div r _ j
+
+theorem den_canonRow_none (r : Row K) (j : Nat) :
+    denE (canonRow none r) j =
+      if Canon.vsum r = 0 then denE r j else denE r j / Canon.vsum r := by
+  unfold canonRow
+  rw [Canon.canonicalize_eq]
+  by_cases h : Canon.vsum r = 0
+  · rw [if_pos h, if_pos h]
+  · rw [if_neg h, if_neg h]; exact Canon.denE_map_div r _ j
+
+theorem vsum_eq_sum {n : Nat} {r : Row K} (h : WF n r) :
+    Canon.vsum r = ∑ j ∈ Finset.range n, denE r j := (sum_denE h.2).symm
+
+theorem den_uniform (n j : Nat) :
+    denE (uniformEntries n : List (Entry K)) j = if j < n then 1 / (n : K) else 0 := by
+  have hw := Canon.wf_uniform (K := K) n
+  by_cases hj : j < n
+  · rw [if_pos hj]
+    have hm : (⟨j, 1 / (n : K)⟩ : Entry K) ∈ (uniformEntries n : List (Entry K)) := by
+      unfold uniformEntries
+      exact List.mem_map.mpr ⟨j, List.mem_range.mpr hj, by simp⟩
+    exact Mg.denE_of_mem hw.1 hm
+  · rw [if_neg hj]; exact Mg.denE_of_ge_dim hw (by omega)
+
+theorem den_canonTV (n : Nat) (es : List (Entry K)) (j : Nat) :
+    denE (canonicalizeTrustVector ⟨n, es⟩).entries j =
+      if Canon.vsum es = 0 then (if j < n then 1 / (n : K) else 0)
+      else denE es j / Canon.vsum es := by
+  unfold canonicalizeTrustVector
+  simp only
+  rw [Canon.canonicalize_eq]
+  by_cases h : Canon.vsum es = 0
+  · rw [if_pos h, if_pos h]; exact den_uniform n j
+  · rw [if_neg h, if_neg h]; exact Canon.denE_map_div es _ j
+
+/-- `canonicalize`-style maps keep the index sequence, hence well-formedness -/
+theorem wf_map_val {n : Nat} {es : List (Entry K)} (f : Entry K → K) (h : WF n es) :
+    WF n (es.map fun e => ⟨e.idx, f e⟩) := by
+  apply Distrust.wf_of_idx_sublist _ h
+  simp [List.map_map, Function.comp_def]
+
+theorem wf_canonRow_some {n : Nat} {p : Vec K} (hp : WF n p.entries) {r : Row K} (h : WF n r) :
+    WF n (canonRow (some p) r) := by
+  unfold canonRow
+  rw [Canon.canonicalize_eq]
+  by_cases hz : Canon.vsum r = 0
+  · rw [if_pos hz]; exact hp
+  · rw [if_neg hz]; exact wf_map_val _ h
+
+theorem wf_canonRow_none {n : Nat} {r : Row K} (h : WF n r) : WF n (canonRow none r) := by
+  unfold canonRow
+  rw [Canon.canonicalize_eq]
+  by_cases hz : Canon.vsum r = 0
+  · rw [if_pos hz]; exact h
+  · rw [if_neg hz]; exact wf_map_val _ h
+
+theorem canonRow_none_nil : canonRow none ([] : Row K) = [] := by
+  unfold canonRow
+  rw [Canon.canonicalize_eq]
+  simp [Canon.vsum]
+
+theorem wf_canonTV {n : Nat} {es : List (Entry K)} (h : WF n es) :
+    WF n (canonicalizeTrustVector ⟨n, es⟩).entries := by
+  have := C04.canonTV_wf ⟨n, es⟩ h
+  rwa [C04.canonTV_dim] at this
+
+/-! ### the last stage in closed form -/
+
+/-- the effective inputs built from aligned inputs `c2`, `p2`, `t2` at dimension `n` -/
+def effOf (k : Consts K) (r : ComputeReq K) (c2 : CSM K) (p2 : Vec K) (t2 : Option (Vec K))
+    (n : Nat) : Effective K :=
+  { c := { c2 with
+            rows := ((c2.rows.map splitRow).map (·.1)).map
+                      (canonRow (some (canonicalizeTrustVector p2))) }
+    p := canonicalizeTrustVector p2
+    t0 := t2.map canonicalizeTrustVector
+    discounts := ⟨c2.major, c2.major, ((c2.rows.map splitRow).map (·.2)).map (canonRow none), []⟩
+    a := r.alpha.getD k.half
+    e := r.epsilon.getD (k.epsNum / (n : K))
+    opts := { t0 := t2.map canonicalizeTrustVector, flatTail := (r.flatTail.getD 0).toNat,
+              numLeaders := (r.numLeaders.getD 0).toNat,
+              maxIterations := r.maxIterations, minIterations := r.minIterations,
+              checkFreq := r.checkFreq } }
+
+theorem finish_eq (k : Consts K) (r : ComputeReq K) (c2 : CSM K) (p2 : Vec K)
+    (t2 : Option (Vec K)) (n : Nat) (hsq : c2.major = c2.minor) (hp : p2.dim = c2.major) :
+    finish k r (c2, p2, t2, n) = some (effOf k r c2 p2 t2 n) := by
+  have h1 : extractDistrust c2 =
+      .ok ({ c2 with rows := (c2.rows.map splitRow).map (·.1) },
+           ⟨c2.major, c2.major, (c2.rows.map splitRow).map (·.2), []⟩) := by
+    unfold extractDistrust CSM.dim
+    rw [if_neg (by simpa using hsq)]
+  have h2 := (C04.canonLT_ok_iff { c2 with rows := (c2.rows.map splitRow).map (·.1) } _
+    (some (canonicalizeTrustVector p2))).mpr
+      ⟨hsq, fun q hq => by cases hq; rw [C04.canonTV_dim]; exact hp, rfl⟩
+  have h3 := (C04.canonLT_ok_iff
+    (⟨c2.major, c2.major, (c2.rows.map splitRow).map (·.2), []⟩ : CSM K) _ none).mpr
+      ⟨rfl, fun q hq => by exact absurd hq (by simp), rfl⟩
+  unfold finish
+  simp only [h1, h2, h3]
+  rfl
+
+/-- `prepare` in closed form, for a loaded matrix that is well-formed and square -/
+theorem prepare_core (k : Consts K) (s : Store K) (r : ComputeReq K) {c0 : CSM K}
+    {pOpt tOpt : Option (Vec K)} (h1 : loadMatrix s r.localTrust = some c0)
+    (h2 : loadOptVec r.preTrust = some pOpt) (h3 : loadOptVec r.initialTrust = some tOpt)
+    (hw : WFM c0) (hc : HiddenClean c0) (hsq : c0.major = c0.minor)
+    (hgA : guardA r = false) (hgB : guardB r = false) :
+    ∃ c2, Aligned c0 (optEntries pOpt) (max (max c0.major (optDim pOpt)) (optDim tOpt)) c2
+        ⟨max (max c0.major (optDim pOpt)) (optDim tOpt), optEntries pOpt⟩ ∧
+      prepare k s r = some (effOf k r c2
+        ⟨max (max c0.major (optDim pOpt)) (optDim tOpt), optEntries pOpt⟩
+        (tOpt.map fun t => ⟨max (max c0.major (optDim pOpt)) (optDim tOpt), t.entries⟩)
+        (max (max c0.major (optDim pOpt)) (optDim tOpt))) := by
+  obtain ⟨ha, hn⟩ := alignPre_spec hw hc hsq pOpt
+  obtain ⟨hb, hn2, ht⟩ := alignInit_spec ha hn tOpt
+  refine ⟨(alignInit (alignPre c0 pOpt) tOpt).1, ?_, ?_⟩
+  · have := hb
+    rw [hb.p_eq] at this
+    exact this
+  · rw [prepare_eq, h1, h2, h3]
+    simp only [hgA, hgB, Bool.false_eq_true, if_false]
+    have hx : alignInit (alignPre c0 pOpt) tOpt =
+        ((alignInit (alignPre c0 pOpt) tOpt).1, (alignInit (alignPre c0 pOpt) tOpt).2.1,
+         (alignInit (alignPre c0 pOpt) tOpt).2.2.1, (alignInit (alignPre c0 pOpt) tOpt).2.2.2) := rfl
+    rw [hx, finish_eq k r _ _ _ _ (hb.major.trans hb.minor.symm)
+      (by rw [hb.p_eq]; exact hb.major.symm)]
+    rw [hb.p_eq, hn2, ht]
+
+/-! ### inline loaders -/
+
+/-- the coordinate list handed to `NewCSRMatrix` by `loadInlineTrustMatrix` -/
+def cooOfI (m : IMatrix K) : List (Coo K) := m.entries.map fun (i, j, v) => ⟨i.toNat, j.toNat, v⟩
+
+/-- the entry list handed to `NewVector` by `loadInlineTrustVector` -/
+def entOfI (v : IVector K) : List (Entry K) := v.entries.map fun (i, x) => ⟨i.toNat, x⟩
+
+/-- every index of an inline matrix is in `[0, size)` -/
+def InRangeM (m : IMatrix K) : Prop :=
+  ∀ e ∈ m.entries, 0 ≤ e.1 ∧ e.1 < m.size ∧ 0 ≤ e.2.1 ∧ e.2.1 < m.size
+
+/-- every index of an inline vector is in `[0, size)` and every value is positive -/
+def InRangeV (v : IVector K) : Prop := ∀ e ∈ v.entries, 0 ≤ e.1 ∧ e.1 < v.size ∧ 0 < e.2
+
+theorem loadInlineMatrix_eq (m : IMatrix K) [Decidable (0 < m.size ∧ InRangeM m)] :
+    loadInlineMatrix m =
+      if 0 < m.size ∧ InRangeM m then
+        some (CSM.newCSR m.size.toNat m.size.toNat (cooOfI m) false)
+      else none := by
+  unfold loadInlineMatrix
+  by_cases hs : m.size ≤ 0
+  · rw [if_pos hs, if_neg (fun h => by omega)]
+  · rw [if_neg hs]
+    have hiff : (m.entries.all (fun (i, j, _) => decide (0 ≤ i) && decide (i < m.size) &&
+        decide (0 ≤ j) && decide (j < m.size)) = true) ↔ InRangeM m := by
+      unfold InRangeM
+      rw [List.all_eq_true]
+      constructor
+      · intro h e he
+        obtain ⟨i, j, v⟩ := e
+        have := h _ he
+        simpa [and_assoc] using this
+      · intro h e he
+        obtain ⟨i, j, v⟩ := e
+        have := h _ he
+        simpa [and_assoc] using this
+    by_cases hr : InRangeM m
+    · rw [if_pos (hiff.mpr hr), if_pos ⟨by omega, hr⟩]; rfl
+    · rw [if_neg (fun h => hr (hiff.mp h)), if_neg (fun h => hr h.2)]
+
+theorem loadInlineVector_eq (v : IVector K) [Decidable (0 < v.size ∧ InRangeV v)] :
+    loadInlineVector v =
+      if 0 < v.size ∧ InRangeV v then some (Vec.new v.size.toNat (entOfI v)) else none := by
+  unfold loadInlineVector
+  by_cases hs : v.size ≤ 0
+  · rw [if_pos hs, if_neg (fun h => by omega)]
+  · rw [if_neg hs]
+    have hiff : (v.entries.all (fun (i, x) => decide (0 ≤ i) && decide (i < v.size) &&
+        !le x zero) = true) ↔ InRangeV v := by
+      unfold InRangeV
+      rw [List.all_eq_true]
+      constructor
+      · intro h e he
+        obtain ⟨i, x⟩ := e
+        have := h _ he
+        simpa [and_assoc] using this
+      · intro h e he
+        obtain ⟨i, x⟩ := e
+        have := h _ he
+        simpa [and_assoc] using this
+    by_cases hr : InRangeV v
+    · rw [if_pos (hiff.mpr hr), if_pos ⟨by omega, hr⟩]; rfl
+    · rw [if_neg (fun h => hr (hiff.mp h)), if_neg (fun h => hr h.2)]
+
+/-! ### validity of inline bodies and their dense reading -/
+
+/-- documented validity of an inline matrix: `size ≥ 1`, indices in range, pairwise distinct
+    `(i, j)` coordinates -/
+def ValidIMatrix (m : IMatrix K) : Prop :=
+  1 ≤ m.size ∧ InRangeM m ∧ (m.entries.map fun e => (e.1, e.2.1)).Nodup
+
+/-- documented validity of an inline vector: `size ≥ 1`, indices in range, pairwise distinct,
+    values positive -/
+def ValidIVector (v : IVector K) : Prop :=
+  1 ≤ v.size ∧ InRangeV v ∧ (v.entries.map (·.1)).Nodup
+
+/-- dense value of an inline matrix at `(i, j)`: the listed value, `0` if `(i, j)` is not listed -/
+def denIM (m : IMatrix K) (i j : Nat) : K :=
+  match m.entries.find? (fun e => e.1 == (i : Int) && e.2.1 == (j : Int)) with
+  | some e => e.2.2
+  | none => 0
+
+/-- dense value of an inline vector at `j`: the listed value, `0` if `j` is not listed -/
+def denIV (v : IVector K) (j : Nat) : K :=
+  match v.entries.find? (fun e => e.1 == (j : Int)) with
+  | some e => e.2
+  | none => 0
+
+theorem cooOfI_nodup {m : IMatrix K} (h : ValidIMatrix m) :
+    ((cooOfI m).map fun e => (e.row, e.col)).Nodup := by
+  unfold cooOfI
+  rw [List.map_map]
+  have : ((fun e : Coo K => (e.row, e.col)) ∘ fun (x : Int × Int × K) =>
+      match x with | (i, j, v) => (⟨i.toNat, j.toNat, v⟩ : Coo K))
+      = (fun q : Int × Int => (q.1.toNat, q.2.toNat)) ∘ fun e : Int × Int × K => (e.1, e.2.1) := by
+    funext ⟨i, j, v⟩; rfl
+  rw [this, ← List.map_map]
+  apply List.Nodup.map_on _ h.2.2
+  intro a ha b hb hab
+  obtain ⟨ea, hea, rfl⟩ := List.mem_map.mp ha
+  obtain ⟨eb, heb, rfl⟩ := List.mem_map.mp hb
+  have h1 := h.2.1 ea hea
+  have h2 := h.2.1 eb heb
+  simp only [Prod.mk.injEq] at hab ⊢
+  omega
+
+theorem mem_cooOfI {m : IMatrix K} {c : Coo K} :
+    c ∈ cooOfI m ↔ ∃ e ∈ m.entries, c = ⟨e.1.toNat, e.2.1.toNat, e.2.2⟩ := by
+  unfold cooOfI
+  rw [List.mem_map]
+  constructor
+  · rintro ⟨⟨i, j, v⟩, he, rfl⟩; exact ⟨_, he, rfl⟩
+  · rintro ⟨⟨i, j, v⟩, he, rfl⟩; exact ⟨_, he, rfl⟩
+
+/-- the matrix loaded from a valid inline body -/
+theorem loadInlineMatrix_valid {m : IMatrix K} (h : ValidIMatrix m) :
+    ∃ c0, loadInlineMatrix m = some c0 ∧ WFM c0 ∧ HiddenClean c0 ∧
+      c0.major = m.size.toNat ∧ c0.minor = m.size.toNat ∧
+      (∀ i j, denRows c0.rows i j = denIM m i j) ∧
+      (∀ i, ∀ x ∈ c0.rows.getD i [], x.val ≠ 0) := by
+  classical
+  refine ⟨CSM.newCSR m.size.toNat m.size.toNat (cooOfI m) false, ?_, ?_⟩
+  · rw [loadInlineMatrix_eq, if_pos ⟨by have := h.1; omega, h.2.1⟩]
+  have hd := cooOfI_nodup h
+  have hrange : ∀ c ∈ cooOfI m, c.row < m.size.toNat ∧ c.col < m.size.toNat := by
+    intro c hc
+    obtain ⟨e, he, rfl⟩ := mem_cooOfI.mp hc
+    have := h.2.1 e he
+    simp only
+    omega
+  obtain ⟨w1, w2, w3, w4, _⟩ := C10.newCSR_wf m.size.toNat m.size.toNat (cooOfI m) false hd
+    (fun e he _ => (hrange e he).2)
+  refine ⟨w1, w2, w3, w4, ?_, fun i => C10.newCSR_no_zero _ _ _ i⟩
+  obtain ⟨c1, c2⟩ := C10.newCSR_cells m.size.toNat m.size.toNat (cooOfI m) false hd
+    (fun e he _ => (hrange e he).1)
+  intro i j
+  unfold denIM
+  cases hf : m.entries.find? (fun e => e.1 == (i : Int) && e.2.1 == (j : Int)) with
+  | some e =>
+    have hmem := List.mem_of_find?_eq_some hf
+    have hp := List.find?_some hf
+    simp only [Bool.and_eq_true, beq_iff_eq] at hp
+    have := c1 ⟨e.1.toNat, e.2.1.toNat, e.2.2⟩ (mem_cooOfI.mpr ⟨e, hmem, rfl⟩)
+    simp only at this
+    rw [hp.1, hp.2] at this
+    simpa using this
+  | none =>
+    apply c2
+    intro c hc hij
+    obtain ⟨e, he, rfl⟩ := mem_cooOfI.mp hc
+    have hr := h.2.1 e he
+    have := List.find?_eq_none.mp hf e he
+    simp only [Bool.and_eq_true, beq_iff_eq, not_and] at this
+    simp only at hij
+    apply this <;> omega
+
+theorem mem_entOfI {v : IVector K} {x : Entry K} :
+    x ∈ entOfI v ↔ ∃ e ∈ v.entries, x = ⟨e.1.toNat, e.2⟩ := by
+  unfold entOfI
+  rw [List.mem_map]
+  constructor
+  · rintro ⟨⟨i, y⟩, he, rfl⟩; exact ⟨_, he, rfl⟩
+  · rintro ⟨⟨i, y⟩, he, rfl⟩; exact ⟨_, he, rfl⟩
+
+theorem entOfI_nodup {v : IVector K} (h : ValidIVector v) : ((entOfI v).map (·.idx)).Nodup := by
+  unfold entOfI
+  rw [List.map_map]
+  have : ((fun e : Entry K => e.idx) ∘ fun (x : Int × K) =>
+      match x with | (i, y) => (⟨i.toNat, y⟩ : Entry K))
+      = (fun q : Int => q.toNat) ∘ fun e : Int × K => e.1 := by
+    funext ⟨i, y⟩; rfl
+  rw [this, ← List.map_map]
+  apply List.Nodup.map_on _ h.2.2
+  intro a ha b hb hab
+  obtain ⟨ea, hea, rfl⟩ := List.mem_map.mp ha
+  obtain ⟨eb, heb, rfl⟩ := List.mem_map.mp hb
+  have h1 := h.2.1 ea hea
+  have h2 := h.2.1 eb heb
+  omega
+
+/-- the vector loaded from a valid inline body -/
+theorem loadInlineVector_valid {v : IVector K} (h : ValidIVector v) :
+    ∃ p, loadInlineVector v = some p ∧ p.dim = v.size.toNat ∧ WF v.size.toNat p.entries ∧
+      (∀ j, denE p.entries j = denIV v j) ∧ (∀ e ∈ p.entries, 0 < e.val) := by
+  classical
+  refine ⟨Vec.new v.size.toNat (entOfI v), ?_, rfl, ?_⟩
+  · rw [loadInlineVector_eq, if_pos ⟨by have := h.1; omega, h.2.1⟩]
+  have hperm := Mx.sortByIdx_perm (entOfI v)
+  have hsorted : Sorted (sortByIdx (entOfI v)) := Mx.sorted_sortByIdx (entOfI_nodup h)
+  refine ⟨⟨hsorted, ?_⟩, ?_, ?_⟩
+  · intro e he
+    obtain ⟨e0, he0, rfl⟩ := mem_entOfI.mp (hperm.mem_iff.mp he)
+    have := h.2.1 e0 he0
+    simp only
+    omega
+  · intro j
+    show denE (sortByIdx (entOfI v)) j = denIV v j
+    unfold denIV
+    cases hf : v.entries.find? (fun e => e.1 == (j : Int)) with
+    | some e =>
+      have hmem := List.mem_of_find?_eq_some hf
+      have hp := List.find?_some hf
+      simp only [beq_iff_eq] at hp
+      have hm : (⟨j, e.2⟩ : Entry K) ∈ sortByIdx (entOfI v) := by
+        apply hperm.mem_iff.mpr
+        apply mem_entOfI.mpr
+        refine ⟨e, hmem, ?_⟩
+        rw [hp]; simp
+      exact Mg.denE_of_mem hsorted hm
+    | none =>
+      apply Mg.denE_of_not_mem
+      rintro ⟨x, hx, hxj⟩
+      obtain ⟨e, he, rfl⟩ := mem_entOfI.mp (hperm.mem_iff.mp hx)
+      have hr := h.2.1 e he
+      have := List.find?_eq_none.mp hf e he
+      simp only [beq_iff_eq] at this
+      simp only at hxj
+      apply this; omega
+  · intro e he
+    obtain ⟨e0, he0, rfl⟩ := mem_entOfI.mp (hperm.mem_iff.mp he)
+    exact (h.2.1 e0 he0).2.2
+
+/-! ### denotation of the effective inputs -/
+
+theorem getD_map_of_lt (f : Row K → Row K) {l : List (Row K)} {i : Nat} (hi : i < l.length) :
+    (l.map f).getD i [] = f (l.getD i []) := by
+  simp only [List.getD_eq_getElem?_getD, List.getElem?_map, List.getElem?_eq_getElem hi,
+    Option.map_some, Option.getD_some]
+
+theorem getD_map_of_nil {f : Row K → Row K} (hf : f [] = []) (l : List (Row K)) (i : Nat) :
+    (l.map f).getD i [] = f (l.getD i []) := by
+  simp only [List.getD_eq_getElem?_getD, List.getElem?_map]
+  cases l[i]? with
+  | none => simp [hf]
+  | some r => simp
+
+section eff
+variable {c0 c2 : CSM K} {pes : List (Entry K)} {n : Nat} {p : Vec K}
+
+theorem Aligned.len (ha : Aligned c0 pes n c2 p) : c2.rows.length = n := ha.wfm.1.trans ha.major
+
+theorem Aligned.row_wf (ha : Aligned c0 pes n c2 p) (i : Nat) : WF n (c0.rows.getD i []) := by
+  rw [← ha.rows i, ← ha.minor]; exact Mx.WFM.row ha.wfm i
+
+theorem Aligned.den (ha : Aligned c0 pes n c2 p) (i j : Nat) :
+    denRows c2.rows i j = denRows c0.rows i j := by
+  unfold denRows; rw [ha.rows i]
+
+theorem effOf_c_row (k : Consts K) (r : ComputeReq K) (t2 : Option (Vec K))
+    (ha : Aligned c0 pes n c2 p) {i : Nat} (hi : i < n) :
+    (effOf k r c2 p t2 n).c.rows.getD i [] =
+      canonRow (some (canonicalizeTrustVector p)) (splitRow (c0.rows.getD i [])).1 := by
+  show (((c2.rows.map splitRow).map (·.1)).map _).getD i [] = _
+  rw [getD_map_of_lt _ (by simp only [List.length_map]; rw [ha.len]; exact hi),
+    Distrust.getD_map_splitRow_fst, ha.rows i]
+
+theorem effOf_d_row (k : Consts K) (r : ComputeReq K) (t2 : Option (Vec K))
+    (ha : Aligned c0 pes n c2 p) (i : Nat) :
+    (effOf k r c2 p t2 n).discounts.rows.getD i [] =
+      canonRow none (splitRow (c0.rows.getD i [])).2 := by
+  show (((c2.rows.map splitRow).map (·.2)).map _).getD i [] = _
+  rw [getD_map_of_nil canonRow_none_nil, Distrust.getD_map_splitRow_snd, ha.rows i]
+
+theorem effOf_dims (k : Consts K) (r : ComputeReq K) (t2 : Option (Vec K))
+    (ha : Aligned c0 pes n c2 ⟨n, pes⟩) (hp : WF n pes) :
+    (effOf k r c2 ⟨n, pes⟩ t2 n).c.major = n ∧ (effOf k r c2 ⟨n, pes⟩ t2 n).c.minor = n ∧
+    WFM (effOf k r c2 ⟨n, pes⟩ t2 n).c ∧ (effOf k r c2 ⟨n, pes⟩ t2 n).p.dim = n ∧
+    WF n (effOf k r c2 ⟨n, pes⟩ t2 n).p.entries ∧
+    (effOf k r c2 ⟨n, pes⟩ t2 n).discounts.major = n ∧
+    (effOf k r c2 ⟨n, pes⟩ t2 n).discounts.minor = n ∧
+    WFM (effOf k r c2 ⟨n, pes⟩ t2 n).discounts := by
+  have hp3 : WF n (canonicalizeTrustVector ⟨n, pes⟩).entries := wf_canonTV hp
+  refine ⟨ha.major, ha.minor, ⟨?_, ?_⟩, C04.canonTV_dim _, hp3, ha.major, ha.major, ⟨?_, ?_⟩⟩
+  · show (((c2.rows.map splitRow).map (·.1)).map _).length = c2.major
+    simp only [List.length_map]; exact ha.wfm.1
+  · show ∀ r' ∈ ((c2.rows.map splitRow).map (·.1)).map _, WF c2.minor r'
+    intro r' hr'
+    simp only [List.map_map, List.mem_map, Function.comp_apply] at hr'
+    obtain ⟨r0, h0, rfl⟩ := hr'
+    rw [ha.minor]
+    apply wf_canonRow_some hp3
+    have := ha.wfm.2 r0 h0
+    rw [ha.minor] at this
+    exact Distrust.wf_sublist (Distrust.splitRow_fst_sublist r0) this
+  · show (((c2.rows.map splitRow).map (·.2)).map _).length = c2.major
+    simp only [List.length_map]; exact ha.wfm.1
+  · show ∀ r' ∈ ((c2.rows.map splitRow).map (·.2)).map _, WF c2.major r'
+    intro r' hr'
+    simp only [List.map_map, List.mem_map, Function.comp_apply] at hr'
+    obtain ⟨r0, h0, rfl⟩ := hr'
+    rw [ha.major]
+    apply wf_canonRow_none
+    have := ha.wfm.2 r0 h0
+    rw [ha.minor] at this
+    exact Distrust.wf_of_idx_sublist (Distrust.splitRow_snd_idx_sublist r0) this
+
+variable [IsStrictOrderedRing K]
+
+theorem effOf_c_den (k : Consts K) (r : ComputeReq K) (t2 : Option (Vec K))
+    (ha : Aligned c0 pes n c2 p) {i : Nat} (hi : i < n) (j : Nat) :
+    denRows (effOf k r c2 p t2 n).c.rows i j =
+      if ∑ j' ∈ Finset.range n, max (denRows c0.rows i j') 0 = 0 then
+        denE (effOf k r c2 p t2 n).p.entries j
+      else max (denRows c0.rows i j) 0 / ∑ j' ∈ Finset.range n, max (denRows c0.rows i j') 0 := by
+  have hw := ha.row_wf i
+  have hw1 : WF n (splitRow (c0.rows.getD i [])).1 :=
+    Distrust.wf_sublist (Distrust.splitRow_fst_sublist _) hw
+  have hsum : Canon.vsum (splitRow (c0.rows.getD i [])).1
+      = ∑ j' ∈ Finset.range n, max (denRows c0.rows i j') 0 := by
+    rw [vsum_eq_sum hw1]
+    exact Finset.sum_congr rfl (fun j' _ => den_splitRow_fst hw.1 j')
+  unfold denRows at hsum ⊢
+  rw [effOf_c_row k r t2 ha hi, den_canonRow_some, hsum, den_splitRow_fst hw.1]
+  rfl
+
+theorem effOf_d_den (k : Consts K) (r : ComputeReq K) (t2 : Option (Vec K))
+    (ha : Aligned c0 pes n c2 p) (i j : Nat) :
+    denRows (effOf k r c2 p t2 n).discounts.rows i j =
+      if ∑ j' ∈ Finset.range n, max (-(denRows c0.rows i j')) 0 = 0 then 0
+      else max (-(denRows c0.rows i j)) 0 /
+        ∑ j' ∈ Finset.range n, max (-(denRows c0.rows i j')) 0 := by
+  have hw := ha.row_wf i
+  have hw2 : WF n (splitRow (c0.rows.getD i [])).2 :=
+    Distrust.wf_of_idx_sublist (Distrust.splitRow_snd_idx_sublist _) hw
+  have hsum : Canon.vsum (splitRow (c0.rows.getD i [])).2
+      = ∑ j' ∈ Finset.range n, max (-(denRows c0.rows i j')) 0 := by
+    rw [vsum_eq_sum hw2]
+    exact Finset.sum_congr rfl (fun j' _ => den_splitRow_snd hw.1 j')
+  unfold denRows at hsum ⊢
+  rw [effOf_d_row k r t2 ha i, den_canonRow_none, hsum, den_splitRow_snd hw.1]
+  by_cases hz : ∑ j' ∈ Finset.range n, max (-(denE (c0.rows.getD i []) j')) 0 = 0
+  · rw [if_pos hz, if_pos hz]
+    by_cases hj : j < n
+    · exact (Finset.sum_eq_zero_iff_of_nonneg (fun _ _ => le_max_right _ _)).mp hz j
+        (Finset.mem_range.mpr hj)
+    · rw [Mg.denE_of_ge_dim hw (by omega)]; simp
+  · rw [if_neg hz, if_neg hz]
+
+theorem effOf_p_den (k : Consts K) (r : ComputeReq K) (t2 : Option (Vec K)) (c2 : CSM K)
+    (hp : WF n pes) (j : Nat) :
+    denE (effOf k r c2 ⟨n, pes⟩ t2 n).p.entries j =
+      if ∑ j' ∈ Finset.range n, denE pes j' = 0 then (if j < n then 1 / (n : K) else 0)
+      else denE pes j / ∑ j' ∈ Finset.range n, denE pes j' := by
+  show denE (canonicalizeTrustVector ⟨n, pes⟩).entries j = _
+  rw [den_canonTV, vsum_eq_sum hp]
+
+end eff
+
+/-! ### valid requests -/
+
+/-- an optional vector reference is absent or a valid inline vector -/
+def ValidVRef : Option (VectorRef K) → Prop
+  | none => True
+  | some (.inline v) => ValidIVector v
+  | some _ => False
+
+/-- an optional integer option respects its documented minimum -/
+def optOK (o : Option Int) (lo : Int) : Prop := ∀ x, o = some x → lo ≤ x
+
+/-- documented validity of an inline compute request -/
+structure ValidReq (r : ComputeReq K) : Prop where
+  localTrust : ∃ m, r.localTrust = .inline m ∧ ValidIMatrix m
+  preTrust : ValidVRef r.preTrust
+  initialTrust : ValidVRef r.initialTrust
+  alpha : ∀ a, r.alpha = some a → 0 ≤ a ∧ a ≤ 1
+  epsilon : ∀ e, r.epsilon = some e → 0 < e ∧ e ≤ 1
+  flatTail : optOK r.flatTail 0
+  numLeaders : optOK r.numLeaders 0
+  maxIterations : optOK r.maxIterations 0
+  minIterations : optOK r.minIterations 1
+  checkFreq : optOK r.checkFreq 1
+
+/-- given size of a matrix reference (`0` when not inline) -/
+def matSize : MatrixRef K → Nat
+  | .inline m => m.size.toNat
+  | _ => 0
+
+/-- given size of an optional vector reference (`0` when absent or not inline) -/
+def vecSize : Option (VectorRef K) → Nat
+  | some (.inline v) => v.size.toNat
+  | _ => 0
+
+/-- the documented dimension: the largest given size -/
+def docDim (r : ComputeReq K) : Nat :=
+  max (matSize r.localTrust) (max (vecSize r.preTrust) (vecSize r.initialTrust))
+
+/-- dense value of the given local trust (`0` outside its size) -/
+def matDen : MatrixRef K → Nat → Nat → K
+  | .inline m => denIM m
+  | _ => fun _ _ => 0
+
+/-- dense value of an optional given vector (`0` if absent or beyond its size) -/
+def vecDen : Option (VectorRef K) → Nat → K
+  | some (.inline v) => denIV v
+  | _ => fun _ => 0
+
+theorem optBad_false_iff (o : Option Int) (lo : Int) : optBad o lo = false ↔ optOK o lo := by
+  unfold optBad optOK
+  cases o with
+  | none => simp
+  | some x => simp
+
+theorem guardB_false_iff (r : ComputeReq K) :
+    guardB r = false ↔ optOK r.flatTail 0 ∧ optOK r.numLeaders 0 ∧ optOK r.maxIterations 0 ∧
+      optOK r.minIterations 1 ∧ optOK r.checkFreq 1 := by
+  unfold guardB
+  simp only [Bool.or_eq_false_iff, optBad_false_iff, and_assoc]
+
+theorem guardA_false_iff (r : ComputeReq K) :
+    guardA r = false ↔ (∀ a, r.alpha = some a → 0 ≤ a ∧ a ≤ 1) ∧
+      (∀ e, r.epsilon = some e → 0 < e ∧ e ≤ 1) := by
+  unfold guardA
+  cases r.alpha <;> cases r.epsilon <;>
+    simp [Bool.or_eq_false_iff, not_lt, not_le]
+
+/-- loading an absent or valid inline vector -/
+theorem loadOptVec_valid {o : Option (VectorRef K)} (h : ValidVRef o) :
+    ∃ pOpt, loadOptVec o = some pOpt ∧ optDim pOpt = vecSize o ∧
+      WF (vecSize o) (optEntries pOpt) ∧ (∀ j, denE (optEntries pOpt) j = vecDen o j) ∧
+      (pOpt = none ↔ o = none) ∧ (∀ e ∈ optEntries pOpt, 0 < e.val) := by
+  cases o with
+  | none =>
+    exact ⟨none, rfl, rfl, Mg.wf_nil _, fun _ => rfl, by simp, fun e he => by cases he⟩
+  | some ref =>
+    cases ref with
+    | inline v =>
+      obtain ⟨p, h1, h2, h3, h4, h5⟩ := loadInlineVector_valid (h : ValidIVector v)
+      refine ⟨some p, ?_, h2, h3, h4, by simp, h5⟩
+      show (loadInlineVector v).map some = _
+      rw [h1]; rfl
+    | objectStorage u => exact absurd h (by simp [ValidVRef])
+    | unknown u => exact absurd h (by simp [ValidVRef])
+
+/-- `prepare` on a valid request, in closed form -/
+theorem prepare_valid (k : Consts K) (s : Store K) {r : ComputeReq K} (h : ValidReq r) :
+    ∃ (c0 c2 : CSM K) (pes : List (Entry K)) (tOpt : Option (Vec K)),
+      (∀ i j, denRows c0.rows i j = matDen r.localTrust i j) ∧
+      Aligned c0 pes (docDim r) c2 ⟨docDim r, pes⟩ ∧
+      WF (docDim r) pes ∧ (∀ j, denE pes j = vecDen r.preTrust j) ∧
+      (tOpt = none ↔ r.initialTrust = none) ∧
+      (∀ t, tOpt = some t → WF (docDim r) t.entries ∧
+        ∀ j, denE t.entries j = vecDen r.initialTrust j) ∧
+      0 < docDim r ∧
+      prepare k s r = some (effOf k r c2 ⟨docDim r, pes⟩
+        (tOpt.map fun t => ⟨docDim r, t.entries⟩) (docDim r)) := by
+  obtain ⟨m, hm, hvm⟩ := h.localTrust
+  obtain ⟨c0, l1, l2, l3, l4, l5, l6, _⟩ := loadInlineMatrix_valid hvm
+  obtain ⟨pOpt, p1, p2, p3, p4, _, _⟩ := loadOptVec_valid h.preTrust
+  obtain ⟨tOpt, t1, t2, t3, t4, t5, _⟩ := loadOptVec_valid h.initialTrust
+  have hload : loadMatrix s r.localTrust = some c0 := by rw [hm]; exact l1
+  have hgA := (guardA_false_iff r).mpr ⟨h.alpha, h.epsilon⟩
+  have hgB := (guardB_false_iff r).mpr
+    ⟨h.flatTail, h.numLeaders, h.maxIterations, h.minIterations, h.checkFreq⟩
+  obtain ⟨c2, ha, hprep⟩ := prepare_core k s r hload p1 t1 l2 l3 (l4.trans l5.symm) hgA hgB
+  have hn : max (max c0.major (optDim pOpt)) (optDim tOpt) = docDim r := by
+    unfold docDim
+    rw [hm, l4, p2, t2, Nat.max_assoc]
+    rfl
+  rw [hn] at ha hprep
+  have hpos : 0 < docDim r := by
+    unfold docDim
+    rw [hm]
+    have := hvm.1
+    simp only [matSize]
+    omega
+  refine ⟨c0, c2, optEntries pOpt, tOpt, ?_, ha, ?_, p4, t5, ?_, hpos, hprep⟩
+  · intro i j; rw [l6, hm]; rfl
+  · exact Mg.wf_mono p3 (by unfold docDim; omega)
+  · intro t ht
+    subst ht
+    exact ⟨Mg.wf_mono t3 (by unfold docDim; omega), t4⟩
 
 end EtVerif.OapiL
